@@ -312,6 +312,16 @@ def check_datadriven_oracle(ctx, fn, a, k, out, bins, case):
             ctx.violation('oracle', 'natural_breaks: last break %r is not the maximum %r' % (bins[-1], float(hi)), dict(case, bins=bins))
             return
         uniq = sorted(set(sv))
+        if len(uniq) < k:
+            # fewer distinct values than classes: the minimum within-class SSD is 0 - every distinct value its own class
+            cls = {}
+            for v, o in fin:
+                cls.setdefault(int(o), set()).add(Fraction(v))
+            mixed = [sorted(float(x) for x in vs) for vs in cls.values() if len(vs) > 1]
+            if mixed:
+                ctx.violation('oracle', 'natural_breaks: only %d distinct values for k=%d, yet the distinct values %r share one class '
+                              '(within-class SSD > 0 where the minimum is 0)' % (len(uniq), k, mixed[0]), dict(case, shared=mixed[0]))
+                return
         if len(uniq) >= k and len(sv) <= 14 and case.get('f32exact', False) and case.get('dtype') != 'float32x':
             groups = {}
             for v, o in fin:
@@ -651,8 +661,8 @@ def run(ctx):
             vals.append(float('nan'))
         if rng.random() < 0.2:
             vals.append(float('inf'))
-        if not vals:
-            vals = [1.0]
+        if not vals and i % 3:
+            vals = [1.0]          # (an empty list is legal too: every finite cell 0, NaN/inf cells NaN)
         case = dict(fn='binary', values=vals, data=to_floats(a), dtype=dtype)
         ctx.case(case)
         ctx.count('binary/%s' % dtype)
@@ -674,6 +684,26 @@ def run(ctx):
                     bad = True
         line = 'binary %s %s' % (xvio.lst(vals, 1), xvio.grid(data, 1))
         pending.append((line, 1, out, case, 'binary'))
+    # binary with an EMPTY value list: every finite cell 0, NaN/inf cells NaN (fixed cases, every run)
+    for dtype in ('float64', 'float32'):
+        a = np.array([[1.0, float('nan'), 2.0], [float('inf'), 0.0, float('-inf')]], dtype=dtype)
+        for vals in ([], ()):
+            case = dict(fn='binary', values=list(vals), data=to_floats(a), dtype=dtype)
+            ctx.case(case)
+            ctx.count('binary/empty-values')
+            try:
+                out = to_floats(classify.binary(xr.DataArray(a, dims=['y', 'x']), vals).data)
+            except Exception as e:
+                ctx.violation('oracle', 'binary(values=[]) raised %s: %s' % (type(e).__name__, e), case)
+                continue
+            for r, row in enumerate(to_floats(a)):
+                for c, v in enumerate(row):
+                    exp = 0.0 if not (math.isnan(v) or math.isinf(v)) else float('nan')
+                    o = out[r][c]
+                    if not (o == exp or (math.isnan(o) and math.isnan(exp))):
+                        ctx.violation('oracle', 'binary: cell %r with an empty value list got %r expected %r' % (v, o, exp),
+                                      dict(case, cell=[r, c], got=o, expected=exp))
+            pending.append(('binary %s %s' % (xvio.lst(list(vals), 1), xvio.grid(to_floats(a), 1)), 1, out, case, 'binary'))
     # ---- data-driven classifiers ----------------------------------------
     nd = 60 if ctx.quick() else 600
     kinds = ['small', 'wide', 'frac', 'nonf32', 'rand']
